@@ -152,7 +152,7 @@ def replay(o, tree):
     if cfg.get("kind") == "promise-pending":
         return deferred_c.replay_promise_pending(tree)
     if cfg.get("kind") == "poly-scalar":
-        return deferred_c.replay_poly_scalar(cfg, tree)
+        return deferred_c.replay_poly_scalar(cfg, tree, o.get("witness"))
     if cfg.get("kind") == "poly-mul":
         return deferred_c.replay_poly_mul(cfg, o.get("witness") or {}, tree)
     return None
